@@ -39,6 +39,12 @@ std::string spell(const std::string& dir, const std::string& name, uint64_t sp) 
 
 std::string upperStr(std::string s) { for (auto& c : s) if (c >= 'a' && c <= 'z') c = static_cast<char>(c - 32); return s; }
 
+// input directories of different spelled lengths and depths (a comparison that mixes up path and file name lengths shows)
+std::string dirName(uint64_t k) {
+	static const char* D[] = {"_d0", "_dir_number_one", "_d2/_nested/_deeper"};
+	return D[k % 3];
+}
+
 struct VolRoundtrip : Family {
 	std::string name() const override { return "vol-roundtrip"; }
 
@@ -46,7 +52,7 @@ struct VolRoundtrip : Family {
 		Plan p;
 		bool c02 = prop == "C02";
 		size_t nf;
-		switch (r.below(6)) { case 0: nf = 0; break; case 1: nf = 1; break; case 2: nf = (thorough && r.chance(1, 3)) ? r.range(13, 40) : r.range(2, 12); break; default: nf = r.range(1, 8); break; }
+		switch (r.below(6)) { case 0: nf = 0; break; case 1: nf = 1; break; case 2: nf = r.chance(1, thorough ? 3 : 8) ? r.range(13, 40) : r.range(2, 12); break; default: nf = r.range(1, 8); break; }
 		size_t ndirs = static_cast<size_t>(r.range(1, 3));
 		std::vector<std::string> names;
 		bool bigSeen = false;
@@ -69,7 +75,7 @@ struct VolRoundtrip : Family {
 			Line f = mkline("world", "file");
 			uint64_t sz = pickSize(r, thorough);
 			if (sz > 100000) { if (bigSeen && !thorough) sz = r.below(5000); bigSeen = true; }
-			f.set("dir", r.chance(1, 6) ? std::string("-") : "_d" + std::to_string(r.below(ndirs))).set("name", quoteToken(nm)).set("cseed", hex64(r.next())).set("len", sz).set("sp", r.below(5));
+			f.set("dir", r.chance(1, 6) ? std::string("-") : dirName(r.below(ndirs))).set("name", quoteToken(nm)).set("cseed", hex64(r.next())).set("len", sz).set("sp", r.below(5));
 			p.world.push_back(f);
 		}
 		// pack order: a permutation of the files
